@@ -230,7 +230,7 @@ def expression(draw, profiles, depth: int, in_cds: bool = False) -> list:
     if shape == "cds":
         if in_cds:
             return draw(leaf(profiles, in_cds))
-        inner = draw(expression(profiles, min(depth - 1, 1), True))
+        inner = draw(expression(profiles, min(depth - 1, draw(st.sampled_from([1, 1, 2]))), True))
         if inner[0] not in ("and", "or"):
             other = ["id", draw(st.sampled_from(profiles))]
             if rules.canon(other) == rules.canon(inner):
@@ -332,7 +332,8 @@ def worlds(draw, tree: list, max_genes: int = 6) -> dict:
     hits = {}
     for gene in genes:
         chosen = draw(st.lists(st.sampled_from(pool), max_size=3, unique=True))
-        hits[gene["name"]] = {p: draw(st.sampled_from([9, 10, 11, 49, 50, 51, 0, 100])) for p in chosen}
+        hits[gene["name"]] = {p: draw(st.sampled_from([9, 10, 11, 49, 50, 51, 0, 100, 49.96, 9.97, 50.04, 10.5]))
+                              for p in chosen}
     return {"L": length, "circular": circular, "cutoff": cutoff, "genes": genes, "hits": hits, "rule": tree}
 
 
@@ -402,7 +403,7 @@ def enum_cases(thorough: bool):
         size = 3
         for tree in _shapes():
             uses_score = "minscore" in rules.operator_kinds(tree)
-            score_sets = [(50,), (49,)] if uses_score else [(100,)]
+            score_sets = [(50,), (49,), (49.96,)] if uses_score else [(100,)]
             for gap1, gap2 in itertools.product((cutoff - 1, cutoff, cutoff + 1), repeat=2):
                 starts = [2, 2 + size + gap1, 2 + 2 * size + gap1 + gap2]
                 end = starts[2] + size
